@@ -166,8 +166,21 @@ def _classify_alloc(tree, call):
     fillNext   : `t = np.empty(..)` immediately followed by `t.fill(v)` or `t[:] = v` / `t[...] = v`
     loopAssign : immediately followed by `for i, x in enumerate(S): t[i] = ..` (or `for i in range(len(S))`)
                  where the allocation's size is `len(S)`, with an unconditional `t[i] = ..` in the loop body
+    objectNone : dtype=object / 'O' - numpy fills object arrays with None, there is no garbage to read
     uninitialised : anything else
     """
+    t, kind = _classify_alloc_pattern(tree, call)
+    if kind == 'uninitialised':
+        dt = next((k.value for k in call.keywords if k.arg == 'dtype'), call.args[1] if len(call.args) > 1 else None)
+        if dt is not None and (
+                (isinstance(dt, ast.Constant) and dt.value in ('O', 'object'))
+                or (isinstance(dt, ast.Name) and dt.id == 'object')
+                or (isinstance(dt, ast.Attribute) and dt.attr in ('object_', 'object'))):
+            kind = 'objectNone'
+    return t, kind
+
+
+def _classify_alloc_pattern(tree, call):
     for parent in ast.walk(tree):
         for fieldname in ('body', 'orelse', 'finalbody'):
             body = getattr(parent, fieldname, None)
@@ -317,7 +330,7 @@ def translate(repo_dir, gen_dir):
     out.append('  file : String\n  line : Nat\n  func : String\n  ufunc : String\n  hasOut : Bool')
     out.append('  deriving Repr')
     out.append('')
-    out.append('inductive InitKind | fillNext | loopAssign | uninitialised')
+    out.append('inductive InitKind | fillNext | loopAssign | objectNone | uninitialised')
     out.append('  deriving Repr, DecidableEq')
     out.append('')
     out.append('structure AllocSite where')
@@ -402,6 +415,11 @@ def FN(path):
     return {'t': 'fn', 'v': path}
 
 
+def RINT(seed, shape, lo, hi, dt='float64'):
+    """integer-valued array drawn from its own seeded generator (keeps replay files small)"""
+    return {'t': 'rint', 'seed': int(seed), 'shape': [int(x) for x in shape], 'lo': int(lo), 'hi': int(hi), 'dt': dt}
+
+
 def TUP(*xs):
     return {'t': 'tuple', 'v': list(xs)}
 
@@ -424,6 +442,8 @@ def decode(e):
     if t == 'ra':
         from enspara import ra
         return ra.RaggedArray([np.array(r, dtype=e['dt']) for r in e['rows']])
+    if t == 'rint':
+        return np.random.default_rng(e['seed']).integers(e['lo'], e['hi'], size=e['shape']).astype(e['dt'])
     if t == 'fn':
         import importlib
         mod, name = e['v'].rsplit('.', 1)
@@ -1584,6 +1604,75 @@ def check_argset(ctx, routine, label, args, kwargs, reps=16, perturbations=None)
     return base
 
 
+
+# --------------------------------------------------------------------------------------
+# compiled kernels at the shape extremes a performance fast path might key on
+# --------------------------------------------------------------------------------------
+
+KERNEL_THREADS = [1, 2, 4, 8, 16]
+
+
+def kernel_extremes(rng, thorough):
+    """(routine, label, args, kwargs) with integer-valued data: every partial sum is an exactly
+    representable integer, so no summation order can change a bit of the correct result."""
+    out = []
+    many = 300000 if thorough else 60000
+    sd = lambda: int(rng.integers(0, 2 ** 31))
+    wide = [(n, w) for n in (1, 2, 3) for w in (4096, 20000)]
+    narrow = [(many, 1), (many // 2, 2), (many // 3, 3)]
+    for kind, lo, hi, dts in (('euclidean', -8, 9, ('float64', 'float32', 'int32')),
+                              ('manhattan', -8, 9, ('float64', 'float32', 'int32')),
+                              ('hamming', 0, 3, ('int64', 'uint8', 'int16'))):
+        for i, (n, w) in enumerate(wide + narrow):
+            dt = dts[i % len(dts)] if (n, w) != (3, 20000) else dts[0]
+            tag = 'few-wide-rows' if n <= 3 else 'many-narrow-rows'
+            out.append(('libdist.' + kind, '%s-%dx%d-%s' % (tag, n, w, dt),
+                        [RINT(sd(), (n, w), lo, hi, dt), RINT(sd(), (w,), lo, hi, dt)], {}))
+        # the same through a caller-supplied NaN buffer
+        out.append(('libdist.with_out', '%s-few-wide-rows-out-nan' % kind,
+                    [FN(LIBDIST + kind), RINT(sd(), (2, 4096), lo, hi, dts[0]), RINT(sd(), (4096,), lo, hi, dts[0]),
+                     N(np.full(2, np.nan))], {}))
+    # reached through the clustering code: a few centers in a flattened coordinate space
+    out.append(('cluster.kcenters', 'few-wide-rows-3x4096', [RINT(sd(), (3, 4096), -8, 9), 'euclidean'], {'n_clusters': 2}))
+    out.append(('cluster.assign_to_nearest_center', 'few-wide-rows-2x20000',
+                [RINT(sd(), (2, 20000), -8, 9), [RINT(sd(), (20000,), -8, 9)], FN(LIBDIST + 'euclidean')], {}))
+    # joint counts: few frames x many features, many frames x few features
+    for T, F, n, dt in ((1, 160, 2, 'int64'), (2, 96, 3, 'int32'), (3, 64, 2, 'uint8'),
+                        (many, 1, 3, 'int64'), (many // 2, 2, 2, 'int16')):
+        tag = 'few-frames-many-features' if T <= 3 else 'many-frames-few-features'
+        out.append(('libinfo.matrix_bincount2d', '%s-%dx%d-%s' % (tag, T, F, dt),
+                    [RINT(sd(), (T, F), 0, n, dt), RINT(sd(), (T, max(1, F // 2)), 0, n, dt), n, n], {}))
+        out.append(('mutual_info.joint_counts', '%s-%dx%d-%s' % (tag, T, F, dt),
+                    [RINT(sd(), (T, F), 0, n, dt)], {'n_x': n}))
+    for T, n in ((1, 2), (2, 3), (many, 4)):
+        out.append(('libinfo.bincount2d', 'frames-%d' % T,
+                    [RINT(sd(), (T,), 0, n, 'int64'), RINT(sd(), (T,), 0, n, 'int64'), n, n], {}))
+    # libmsm (serial today; a parallelised version must stay a function of its argument)
+    for n in (2, 3, 24):
+        out.append(('builders._prinz_mle', 'counts-%dx%d' % (n, n), [RINT(sd(), (n, n), 1, 12, 'float64')], {}))
+    return out
+
+
+def check_threads(ctx, routine, label, args, kwargs, repeats=3):
+    """threads 1/2/4/8/16, each `repeats` times, bit-for-bit against the 1-thread result"""
+    case = {'routine': routine, 'label': label, 'args': args, 'kwargs': kwargs}
+    ref, _, _ = call_once(routine, args, kwargs, threads=1)
+    ctx.case({'routine': routine, 'args': args, 'kwargs': kwargs}, nontrivial='ok' in ref,
+             tags=[routine, 'kernel-extreme', 'outcome=' + ('value' if 'ok' in ref else ref['error'])])
+    for rep in range(repeats):
+        for k in KERNEL_THREADS:
+            got, _, _ = call_once(routine, args, kwargs, threads=k)
+            ctx.tag('perturbation=threads-extreme')
+            if got != ref:
+                ctx.violation('%s: result with %d OpenMP threads differs from the 1-thread result (arguments '
+                              'identical, integer-valued data, repetition %d)' % (routine, k, rep),
+                              dict(case, perturbation={'kind': 'threads-extreme', 'n': k, 'reference_threads': 1,
+                                                       'repetition': rep},
+                                   baseline=_short(ref), perturbed=_short(got)))
+                return False
+    return True
+
+
 # ---- (d) MALLOC_PERTURB_ subprocess ---------------------------------------------------
 
 def _worker():
@@ -1822,6 +1911,10 @@ def run(ctx):
                 check_argset(ctx, routine, label, args, kwargs, reps=reps)
                 if len(jobs) < 4000 and len(json.dumps(args)) < 200000:
                     jobs.append({'routine': routine, 'label': label, 'args': args, 'kwargs': kwargs})
+    # compiled kernels at extreme shapes under every team size
+    for rd in range(ctx.n(1, 3)):
+        for routine, label, args, kwargs in kernel_extremes(rng, ctx.thorough):
+            check_threads(ctx, routine, label, args, kwargs)
     # a site the obligations reject: concentrate the heap histories on the routines that reach it
     for routine in targets:
         for rd in range(12):
@@ -1871,5 +1964,8 @@ def replay(ctx, case):
             else digest(base['ok']) == o['sha1']
         if not same:
             ctx.violation('%s: result under MALLOC_PERTURB_=%s differs' % (routine, p['value']), case)
+        return
+    if p.get('kind') == 'threads-extreme':
+        check_threads(ctx, routine, case.get('label', 'replay'), args, kwargs, repeats=5)
         return
     check_argset(ctx, routine, case.get('label', 'replay'), args, kwargs, reps=32)
